@@ -9,7 +9,7 @@ if [ -n "$(git -C /repo status --short --untracked-files=no)" ]; then
     echo "refusing: /repo has uncommitted changes"; exit 2
 fi
 SEEDS="$@"
-[ -z "$SEEDS" ] && SEEDS=$(ls seeded)
+[ -z "$SEEDS" ] && SEEDS=$(ls -d seeded/*/ | xargs -n1 basename)
 for s in $SEEDS; do
     pid=${s%%_*}
     chk=$pid
